@@ -26,6 +26,7 @@ import math
 UNARY = ('neg', 'exp', 'sin', 'cos', 'tanh', 'sqrt', 'log')
 BINOPS = ('+', '-', '*', '%')
 VIEWS = ('rev', 'drop1', 'take2')      # |E  1_E  2#E
+CVEC = (0.5, 2.0)                       # ('cvx', name): the constant real list scaled by a scalar parameter
 
 # Smooth lambdas used under Each: key -> (Klong text, tree over the lambda's own scalar parameter 'x')
 LAMBDAS = {
@@ -220,6 +221,8 @@ def _ev0(t, b, n):
     k = t[0]
     if k == 'var':
         return b[t[1]]
+    if k == 'cvx':
+        return [mul(const(c, n), b[t[1]]) for c in CVEC]
     if k == 'idx':
         return b[t[1]][t[2]]
     if k == 'vidx':
@@ -340,7 +343,7 @@ def value_only(tree, env, point):
 def size(t):
     """Number of nodes: every tuple of the tree counts 1 (constants are part of their operator)."""
     k = t[0]
-    if k in ('var', 'idx'):
+    if k in ('var', 'idx', 'cvx'):
         return 1
     if k in ('vidx', 'red', 'each'):
         return 1 + size(t[1] if k == 'vidx' else t[2])
